@@ -13,7 +13,7 @@ use proptest::test_runner::{Config, RngSeed, TestRunner};
 use serde_json::json;
 use std::sync::{Arc, Barrier};
 
-pub const RULE: &str = "generated: a corpus of N requests (valid ones from the completeness generator on both carriers with all options, and defective ones from the C13 catalogue) with their configurations. The OUTCOME of one validation is (Ok | error kind, code, status; returned method, version, URI, headers, body; principal) -- messages are deliberately excluded, divergences in them are only counted. Oracle: outcome digests are equal (i) across 3 repetitions on one thread, (ii) across T in {2,4,8,16} threads released together on a barrier, each validating a different rotation of the corpus concurrently, (iii) in freshly spawned processes (fresh hash seeds) whose 16 threads start COLD, so their first validations race on the lazily initialised global regexes, and (iv) equal to the reference model's verdict where specified. (v) history independence on one thread: a request followed by up to six close relatives (one of 17 ingredients changed -- server region/service/clock/options, secret, token, access key, time, spelling, query, header, body, path, method, requirement; signed anew, or presented with the previous signature), each judged by the reference model; a disagreement that vanishes on a fresh thread is reported as history-dependent. Limit: the thread schedule is the OS's, sampled not enumerated. Non-trivial: a request with >= 3 query parameters or >= 3 signed headers or >= 2 prefix-matching unsigned headers; distinct by request digest.";
+pub const RULE: &str = "generated: a corpus of N requests (valid ones from the completeness generator on both carriers with all options, and defective ones from the C13 catalogue) with their configurations. The OUTCOME of one validation is (Ok | error kind, code, status; returned method, version, URI, headers, body; principal) -- messages are deliberately excluded, divergences in them are only counted. Oracle: outcome digests are equal (i) across 3 repetitions on one thread, (ii) across T in {2,4,8,16} threads released together on a barrier, each validating a different rotation of the corpus concurrently, (iii) in freshly spawned processes (fresh hash seeds; launched under differing environments: time zone, locale, RUST_LOG, AWS_* variables, an empty environment) whose 16 threads start COLD, so their first validations race on the lazily initialised global regexes, and (iv) equal to the reference model's verdict where specified. (v) history independence on one thread: a request followed by up to six close relatives (one of 17 ingredients changed -- server region/service/clock/options, secret, token, access key, time, spelling, query, header, body, path, method, requirement; signed anew, or presented with the previous signature), each judged by the reference model; a disagreement that vanishes on a fresh thread is reported as history-dependent. Limit: the thread schedule is the OS's, sampled not enumerated. Non-trivial: a request with >= 3 query parameters or >= 3 signed headers or >= 2 prefix-matching unsigned headers; distinct by request digest.";
 
 pub fn subs() -> Vec<Box<dyn AnySub>> {
     vec![Box::new(Sub {
@@ -577,8 +577,41 @@ pub fn extra(ctx: &Ctx) {
     let mut thread_disagree = 0;
     let mut msg_digests = std::collections::BTreeSet::new();
     let mut children = Vec::new();
-    for _ in 0..procs {
-        children.push(std::process::Command::new(&exe).args(["__c18worker", &ctx.seed.to_string(), &nproc_corpus.to_string(), "16"]).stdout(std::process::Stdio::piped()).spawn());
+    for i in 0..procs {
+        // "a pure function of the request, the server time, the configuration and the provider's answer":
+        // the process environment is none of these, so the launches differ in it
+        let mut cmd = std::process::Command::new(&exe);
+        cmd.args(["__c18worker", &ctx.seed.to_string(), &nproc_corpus.to_string(), "16"]).stdout(std::process::Stdio::piped());
+        match i % 8 {
+            1 => {
+                cmd.env("TZ", "Asia/Tokyo");
+            }
+            2 => {
+                cmd.env("TZ", "America/Los_Angeles").env("LANG", "tr_TR.UTF-8").env("LC_ALL", "tr_TR.UTF-8");
+            }
+            3 => {
+                cmd.env("RUST_LOG", "trace").env("RUST_BACKTRACE", "1");
+            }
+            4 => {
+                cmd.env("AWS_REGION", "eu-west-1").env("AWS_DEFAULT_REGION", "eu-west-1").env("AWS_ACCESS_KEY_ID", "AKIDOTHER").env("AWS_SECRET_ACCESS_KEY", "other").env("AWS_SESSION_TOKEN", "t");
+            }
+            5 => {
+                cmd.env_clear();
+            }
+            6 => {
+                cmd.env("TZ", ":/nonexistent").env("SOURCE_DATE_EPOCH", "0").env("HOSTNAME", "other-host");
+            }
+            7 => {
+                cmd.env("AWS_EC2_METADATA_DISABLED", "true").env("HTTP_PROXY", "http://127.0.0.1:9").env("RUST_LOG", "off");
+            }
+            _ => {}
+        }
+        for (k, v) in [("VERIF_EVAL_DIR", std::env::var("VERIF_EVAL_DIR").ok())] {
+            if let Some(v) = v {
+                cmd.env(k, v);
+            }
+        }
+        children.push(cmd.spawn());
         if children.len() >= 4 {
             for ch in children.drain(..) {
                 collect(ch, &want, &mut differing, &mut thread_disagree, &mut msg_digests, ctx);
@@ -598,7 +631,7 @@ pub fn extra(ctx: &Ctx) {
         "determinism",
         json!({"corpus": n, "repetitions": 3, "thread_counts": [2, 4, 8, 16], "fresh_processes": procs, "process_corpus": nproc_corpus,
             "processes_with_differing_outcomes": differing, "processes_with_thread_disagreement": thread_disagree,
-            "message_divergences_in_process": msg_div, "distinct_message_digests_across_processes": msg_digests.len(),
+            "message_divergences_in_process": msg_div, "process_environments": "launch i uses variant i mod 8 of: unchanged; TZ=Asia/Tokyo; TZ=America/Los_Angeles + LANG/LC_ALL=tr_TR.UTF-8; RUST_LOG=trace; AWS_REGION/AWS_* credentials set; empty environment; TZ=:/nonexistent + SOURCE_DATE_EPOCH=0; proxy variables", "distinct_message_digests_across_processes": msg_digests.len(),
             "note": "message divergences are reported, not asserted: which of several unsigned prefix-matching headers an error names depends on hash order; the property compares outcome, kind and returned request"}),
     );
     if differing > 0 || thread_disagree > 0 {
